@@ -462,9 +462,26 @@ def plan(ctx, pinned, corpus, gen, fgen=()):
     return units
 
 
+def memory_limited(build, kb):
+    """a view of the build whose compiler runs under `ulimit -v`: at the top levels the inliner can make the
+    compiler grow to 20-40 GB within the time limit (seen in the thorough tier: the kernel's out-of-memory killer
+    then picks arbitrary processes); under the limit the compiler dies of SIGSEGV, silently and identically on
+    every route, which `compiler_crashed_everywhere` recognises"""
+    import copy, shlex, stat
+    w = os.path.join(build.top, "aldor-mem%d.sh" % kb)
+    if not os.path.exists(w):
+        with open(w, "w") as f:
+            f.write("#!/bin/sh\nulimit -S -v %d\nexec %s \"$@\"\n" % (kb, shlex.quote(build.aldor)))
+        os.chmod(w, os.stat(w).st_mode | stat.S_IXUSR | stat.S_IXGRP | stat.S_IXOTH)
+    lb = copy.copy(build)
+    lb.aldor = w
+    return lb
+
+
 def run_part(ctx, build):
     if not getattr(build, "libfoam_dir", None):
         build.build_runtime()
+    build = memory_limited(build, 8 * 1024 * 1024)
     thorough = ctx.tier == "thorough"
     timeout = 300 if thorough else 100
     # (the thorough tier's plan - every program at every level on three routes - takes several hours on 16 cores;
